@@ -18,8 +18,34 @@ pub fn fbits(f: f64) -> u64 {
         f.to_bits()
     }
 }
+/// distinct ids map to distinct names that a sloppy lookup (case-insensitive, trimmed, prefix) would confuse
 pub fn var_name(id: i128) -> String {
-    format!("v{id}")
+    let k = id.div_euclid(4);
+    match id.rem_euclid(4) {
+        0 => format!("n{k}"),
+        1 => format!("N{k}"),
+        2 => format!("n{k}_"),
+        _ => format!("n{k} "),
+    }
+}
+
+/// inverse of `var_name`
+pub fn var_id(s: &str) -> Option<i128> {
+    let (r, body) = if let Some(b) = s.strip_prefix('N') {
+        (1, b)
+    } else if let Some(b) = s.strip_prefix('n') {
+        if let Some(b2) = b.strip_suffix('_') {
+            (2, b2)
+        } else if let Some(b2) = b.strip_suffix(' ') {
+            (3, b2)
+        } else {
+            (0, b)
+        }
+    } else {
+        return None;
+    };
+    let k: i128 = body.parse().ok()?;
+    (var_name(4 * k + r) == s).then_some(4 * k + r)
 }
 
 /// tree -> instruction.  `strings` is the case's string table (for PrintString).
@@ -198,7 +224,7 @@ pub fn instr_tree(i: &PushInstruction, strings: &[String]) -> Option<Tree> {
     match i {
         P::InputVar(v) => {
             let s = v.to_string();
-            t2(31, s.strip_prefix('v')?.parse().ok()?)
+            t2(31, var_id(&s)?)
         }
         P::PrintSpace(_) => t1(32),
         P::PrintNewline(_) => t1(33),
